@@ -1,0 +1,10 @@
+//go:build verif
+
+package vgirpc
+
+import "github.com/apache/arrow-go/v18/arrow/memory"
+
+// VerifAllocator returns the allocator the framework allocates Arrow memory
+// from (the checked allocator under -tags leakcheck), so that a conformance
+// harness can hand the framework batches that show up in LeakCheckSummary.
+func VerifAllocator() memory.Allocator { return defaultAllocator() }
